@@ -12,6 +12,7 @@ import (
 	"io"
 	"os"
 	"path/filepath"
+	"reflect"
 	"runtime"
 	"sort"
 	"strconv"
@@ -236,6 +237,117 @@ func framing(seqLen int) {
 	}
 }
 
+// idForms: every kind of message that carries an id, with ids at the edges of both forms — the numbers 0, ±1 and the
+// 32-bit limits, strings that look like numbers or JSON words, strings with quotes, backslashes, control characters,
+// DEL, non-breaking space, an astral and a non-printable astral character. Each message is written by the real stream,
+// the frame is decoded independently (encoding/json into a map: the id must be the JSON form of the Go value), and read
+// back alone and followed by a second message, unchunked and byte by byte: same kind of message, same id.
+func idForms() int {
+	ctx := context.Background()
+	type idSpec struct {
+		id   jsonrpc2.ID
+		json string // the JSON text the id must have on the wire
+	}
+	var ids []idSpec
+	for _, n := range []int32{0, 1, -1, 7, 2147483647, -2147483648} {
+		ids = append(ids, idSpec{jsonrpc2.NewNumberID(n), strconv.Itoa(int(n))})
+	}
+	for _, str := range []string{"a", "0", "-1", "null", "true", " ", "id-é", "\u00a0x", "a\"b\\c", "line\nbreak\ttab", "\x01\x1b", "\x7f", "😀", "\U000E0067\U000E007F", "\u2028"} {
+		j, _ := json.Marshal(str)
+		ids = append(ids, idSpec{jsonrpc2.NewStringID(str), string(j)})
+	}
+	n := 0
+	for _, raw := range []bool{false, true} {
+		mk, kind := jsonrpc2.NewStream, "header stream"
+		if raw {
+			mk, kind = jsonrpc2.NewRawStream, "raw stream"
+		}
+		for _, is := range ids {
+			type mspec struct {
+				name string
+				mk   func() (jsonrpc2.Message, error)
+				what string // "call" | "response"
+			}
+			forms := []mspec{
+				{"call", func() (jsonrpc2.Message, error) { return jsonrpc2.NewCall(is.id, "m/x", map[string]int{"a": 1}) }, "call"},
+				{"call without params", func() (jsonrpc2.Message, error) { return jsonrpc2.NewCall(is.id, "m/y", nil) }, "call"},
+				{"result response", func() (jsonrpc2.Message, error) { return jsonrpc2.NewResponse(is.id, map[string]bool{"ok": true}, nil) }, "response"},
+				{"error response", func() (jsonrpc2.Message, error) { return jsonrpc2.NewResponse(is.id, nil, errors.New("boom")) }, "response"},
+			}
+			for _, f := range forms {
+				n++
+				progress.Add(1)
+				replay := map[string]any{"stream": kind, "message": f.name, "id_json": is.json}
+				m, err := f.mk()
+				if err != nil {
+					run.Violation("id-forms", fmt.Sprintf("%s: %s with id %s cannot be built: %v", kind, f.name, is.json, err), replay)
+					continue
+				}
+				second := must(jsonrpc2.NewNotification("after", nil))
+				w := &chunkConn{}
+				ws := mk(w)
+				if _, err := ws.Write(ctx, m); err != nil {
+					run.Violation("id-forms", fmt.Sprintf("%s: %s with id %s cannot be written: %v", kind, f.name, is.json, err), replay)
+					continue
+				}
+				if _, err := ws.Write(ctx, second); err != nil {
+					run.Violation("id-forms", fmt.Sprintf("%s: the message after a %s with id %s cannot be written: %v", kind, f.name, is.json, err), replay)
+					continue
+				}
+				data := w.out.Bytes()
+				if !raw {
+					frames, err := parseFrames(data)
+					if err != nil || len(frames) != 2 {
+						run.Violation("id-forms", fmt.Sprintf("%s: %s with id %s is not written as a whole frame holding one JSON value: %v", kind, f.name, is.json, err), replay)
+						continue
+					}
+					var obj map[string]json.RawMessage
+					if err := json.Unmarshal([]byte(frames[0]), &obj); err != nil || string(obj["id"]) != is.json {
+						var back any
+						json.Unmarshal(obj["id"], &back)
+						var wantV any
+						json.Unmarshal([]byte(is.json), &wantV)
+						if err != nil || !reflect.DeepEqual(back, wantV) {
+							run.Violation("id-forms", fmt.Sprintf("%s: %s with id %s is on the wire with id %s", kind, f.name, is.json, obj["id"]), replay)
+							continue
+						}
+					}
+				}
+				for _, fix := range []int{0, 1, 3} {
+					rs := mk(&chunkConn{data: data, fix: fix})
+					got, _, err := rs.Read(ctx)
+					if err != nil {
+						run.Violation("id-forms", fmt.Sprintf("%s: %s with id %s cannot be read back (chunks of %d): %v", kind, f.name, is.json, fix, err), replay)
+						break
+					}
+					var gotID *jsonrpc2.ID
+					gotWhat := "notification"
+					switch x := got.(type) {
+					case *jsonrpc2.Call:
+						id := x.ID()
+						gotID, gotWhat = &id, "call"
+					case *jsonrpc2.Response:
+						id := x.ID()
+						gotID, gotWhat = &id, "response"
+					}
+					if gotWhat != f.what || gotID == nil || *gotID != is.id {
+						run.Violation("id-forms", fmt.Sprintf("%s: %s with id %s is read back as a %s with id %v", kind, f.name, is.json, gotWhat, gotID), replay)
+						break
+					}
+					if nx, _, err := rs.Read(ctx); err != nil {
+						run.Violation("id-forms", fmt.Sprintf("%s: the message after a %s with id %s cannot be read (chunks of %d): %v", kind, f.name, is.json, fix, err), replay)
+						break
+					} else if _, ok := nx.(*jsonrpc2.Notification); !ok {
+						run.Violation("id-forms", fmt.Sprintf("%s: the notification after a %s with id %s is read back as %T", kind, f.name, is.json, nx), replay)
+						break
+					}
+				}
+			}
+		}
+	}
+	return n
+}
+
 // frameSizes: one message whose body has every length up to 4 KiB (16 KiB) and around the larger sizes at which a
 // stream could switch strategy (8 KiB ... 128 KiB scratch buffers), written by the real streams, checked against the independent
 // frame parser and read back, each followed by a small message (a short frame makes the next one start early).
@@ -340,6 +452,10 @@ func refRead(data []byte) (outcomes []string) {
 		if length == 0 || int64(len(data)) < length {
 			return append(outcomes, "error")
 		}
+		// the body must be one JSON value (decided by encoding/json) that decodes as a JSON-RPC message
+		if !json.Valid(data[:length]) {
+			return append(outcomes, "error")
+		}
 		if _, err := jsonrpc2.DecodeMessage(data[:length]); err != nil {
 			return append(outcomes, "error")
 		}
@@ -364,9 +480,13 @@ func framedSequences(n int) int {
 		frame(fmt.Sprintf("content-length: %d\r\n", len(body1)), body1),      // wrong case: not the header
 		frame(fmt.Sprintf("Content-Length: %d\r\n", len(body1)+5), body1),    // length beyond the body
 		frame(fmt.Sprintf("Content-Length: %d\r\n", len(body2)), body2)[:30], // truncated
+		frame(fmt.Sprintf("Content-Length: %d\r\n", len(body1)+3), body1+"xxx"),              // a JSON value followed by garbage, all inside the announced length
+		frame(fmt.Sprintf("Content-Length: %d\r\n", len(body1)+len(body2)), body1+body2),     // two JSON values in one frame
+		frame(fmt.Sprintf("Content-Length: %d\r\n", len(body2)+2), body2+"}]"),               // a JSON value followed by closing brackets
+		frame(fmt.Sprintf("Content-Length: %d\r\n", len(body1)+2), " "+body1+"\n"),           // surrounded by white space: still one value
 	}
 	count := 0
-	vlib.Seqs([]string{"0", "1", "2", "3", "4", "5", "6"}, n, func(_ string, idx []int) bool {
+	vlib.Seqs([]string{"0", "1", "2", "3", "4", "5", "6", "7", "8", "9", "10"}, n, func(_ string, idx []int) bool {
 		if len(idx) == 0 {
 			return true
 		}
@@ -915,6 +1035,7 @@ func main() {
 		nmal = malformed(run.Pick(4, 5))
 		run.Cov["framed_unit_sequences"] = framedSequences(run.Pick(3, 4))
 		run.Cov["frame_size_sweep_messages"] = frameSizes()
+		run.Cov["id_form_messages"] = idForms()
 	}
 	progress.Store(-1 << 40)
 
